@@ -173,6 +173,36 @@ def check(case, ignore_regions=False) -> Outcome:
     # family of models
     declared = {d["pop"]: set(d["Z"]) for d in doms}
     target = SCM(g, case["mseed"], max_card=case["max_card"], clique_mode=case["clique"])
+    bad = _judge(est, g, xs, ys, doms, declared, target, case, fail)
+    if bad is not None:
+        return bad
+    # the caller's argument objects used again for ANOTHER outcome (the ordinary 'for y in outcomes' loop): the second
+    # answer is judged for the interventions the caller wrote down
+    rest = sorted(set(g["nodes"]) - set(xs) - set(ys))
+    if rest:
+        import zlib
+
+        ys2 = [rest[zlib.crc32(out.key.encode()) % len(rest)]]
+        cond2 = []
+        with CallTrace(tr_mod, ["activate_domain_and_interventions"]) as tr2:
+            tr2.observe("activate_domain_and_interventions", lambda a, k, r: cond2.append(1) if getattr(a[0] if a else k.get("expression"), "parents", None) else None)
+            try:
+                est2 = tr_mod.identify_target_outcomes(graph, **{**args, "target_outcomes": {V(y) for y in ys2}})
+            except Exception as e:
+                return fail("identify_target_outcomes-raised-on-a-second-question-with-the-same-argument-objects", second_outcomes=ys2, exc=repr(e)[:300])
+        if est2 is not None and isinstance(est2, Expression) and not (cond2 and not ignore_regions and REGION_F17 in open_regions(ID)):
+            labels.add("second-question-with-the-same-argument-objects")
+            bad = _judge(est2, g, xs, ys2, doms, declared, target, case, lambda kind, **kw: fail("second-question:" + kind, second_outcomes=ys2, **kw))
+            if bad is not None:
+                return bad
+    out.nontrivial = "uses-source-domain" in labels or (not doms and bool({"trso_line4", "trso_line9", "trso_line10"} & labels))
+    out.labels = sorted(labels)
+    return out
+
+
+def _judge(est, g, xs, ys, doms, declared, target, case, fail):
+    """None if the estimand equals the target effect P*(ys | do(xs)) on two families of models, else fail(...)."""
+    text = est.to_y0()
     for redraw in range(2):
         models = {"pi*": target}
         for k, d in enumerate(doms):
@@ -205,9 +235,7 @@ def check(case, ignore_regions=False) -> Outcome:
                 return fail("wrong-value", estimand=text, assignment=env, value=str(got), truth=str(truth), target_model=target.params(), redraw=redraw, differing_nodes={d["pop"]: sorted(nodes_to_transport(g, d["Z"], d["W"])) for d in doms})
         if not doms:
             break
-    out.nontrivial = "uses-source-domain" in labels or (not doms and bool({"trso_line4", "trso_line9", "trso_line10"} & labels))
-    out.labels = sorted(labels)
-    return out
+    return None
 
 
 LEVEL_TEXT = (
